@@ -13,7 +13,7 @@ from concurrent.futures import ThreadPoolExecutor
 
 VERIF = os.path.dirname(os.path.dirname(os.path.abspath(__file__)))
 HARNESS = os.path.join(VERIF, "harness")
-BUILD = os.path.join(VERIF, ".build")
+BUILD = os.environ.get("PV_BUILD") or os.path.join(VERIF, ".build")
 REPO = "/repo"
 sys.path.insert(0, os.path.join(VERIF, "driver"))
 from props import PROPS, STUB_SETS  # noqa: E402
